@@ -182,11 +182,15 @@ impl<Body> AmendedRequest<Body> {
             None
         };
 
-        let url = match base {
+        let mut url = match base {
             Some(base) => base.join(location),
             None => Url::parse(location),
         }
         .map_err(|_| Error::BadLocationHeader(location.to_string()))?;
+
+        // The fragment is not part of the request target. Drop it here, so that
+        // its length does not count against what a Uri can hold.
+        url.set_fragment(None);
 
         // A location such as mailto:x@y.test or y.test:8080 resolves to a url without a host.
         // Read as a plain string below, it would turn into a request to "y.test".
